@@ -2,7 +2,8 @@
    model (dispatch kind 13).  Instance: configuration = a token, model state = the model's tag,
    graph = (configuration token, state it was generated for).
    case := [[graph; nested; locked; async]; qmodel; mctx; wmodels; wlocks; script; rmoff; rloff;
-            ncont; nflags; nindep]
+            ncont; nflags; nindep; entry]
+     entry   : [] = pickle.dumps(machine); [identity] = pickle.dumps(that model) (snapshot_via)
      mctx    : identities of the machine_context objects
      wmodels : list of [identity; tag; hashable]
      wlocks  : list of [identity; name; held; picklable]
@@ -109,20 +110,23 @@ Definition e_rekey (w : world iS) (m : machine iC iG) (w' : world iS) (m' : mach
 
 Definition run_pickle_case (x : sx) : sx :=
   match x with
-  | L [kx; qx; cx; mx; lx; sx_; N rmoff; N rloff; N ncont; N nflags; N nindep] =>
+  | L [kx; qx; cx; mx; lx; sx_; N rmoff; N rloff; N ncont; N nflags; N nindep; ex] =>
       match d_cls kx, d_bool qx, d_list d_nat cx, d_list d_wmodel mx, d_list d_wlock lx,
-            d_list d_tabop sx_ with
-      | Some k, Some q, Some mctx, Some wm, Some wl, Some script =>
+            d_list d_tabop sx_, d_option d_nat ex with
+      | Some k, Some q, Some mctx, Some wm, Some wl, Some script, Some entry =>
           let w := mkW wm wl in
           let m := fold_left (tab_step irender w) script (init_machine k 0 q mctx) in
           L [N 1; N (hooks_code (effective_hooks k));
-             match snapshot irender (fun i => i + rmoff) (fun l => l + rloff) w m with
+             match (match entry with
+                    | None => snapshot irender (fun i => i + rmoff) (fun l => l + rloff) w m
+                    | Some j => snapshot_via irender j (fun i => i + rmoff) (fun l => l + rloff) w m
+                    end) with
              | None => L [N 0]
              | Some (w', m') =>
                  L [N 1; e_rekey w m w' m';
                     L [L (repeat (L (repeat (N 1) nflags)) ncont); L (repeat (N 1) nindep)]]
              end]
-      | _, _, _, _, _, _ => L [N 0]
+      | _, _, _, _, _, _, _ => L [N 0]
       end
   | _ => L [N 0]
   end.
